@@ -69,16 +69,23 @@ class ParallelMailboxLock:
         assert self.lock_file.minimum <= no < self.lock_file.maximum
         self.no = no - self.lock_file.minimum
         self.counter = None
+        # record locks do not exclude tasks of the same process
+        self.task_lock = Lock()
 
     async def __aenter__(self):
-        while True:
-            try:
-                fcntl.lockf(self.lock_file.fd, fcntl.LOCK_NB | fcntl.LOCK_EX,
-                            1, self.no)
-            except OSError:
-                await sleep(0)
-                continue
-            break
+        await self.task_lock.acquire()
+        try:
+            while True:
+                try:
+                    fcntl.lockf(self.lock_file.fd,
+                                fcntl.LOCK_NB | fcntl.LOCK_EX, 1, self.no)
+                except OSError:
+                    await sleep(0)
+                    continue
+                break
+        except BaseException:
+            self.task_lock.release()
+            raise
         # the creator may not have sized the file yet: no byte means 0
         data = os.pread(self.lock_file.fd, 1, self.no)
         self.counter = data[0] if data else 0
@@ -87,6 +94,7 @@ class ParallelMailboxLock:
         os.pwrite(self.lock_file.fd, bytes((self.counter,)), self.no)
         fcntl.lockf(self.lock_file.fd, fcntl.LOCK_UN, 1, self.no)
         self.counter = None
+        self.task_lock.release()
 
     def next_counter(self):
         ret = self.counter
